@@ -22,7 +22,7 @@ THEOREM_FILE = "Properties/C02.v"
 COQCHK = ["Properties.C02"]
 RULE = ("pairs: (a) (x, deepcopy(x)) for random nested values x (dict/list/tuple/set/frozenset/scalars, ==-aliased atoms in 30%), (b) single-edit "
         "neighbours: every EDIT_KIND of harness.values (13 kinds) applied at a random position, i.e. at every depth, several times per value, "
-        "(c) random independent pairs, (d) a seeded slice of the exhaustive small universe, (e) values containing date/datetime/time/timedelta "
+        "(c) random independent pairs, (d) a seeded sample (600 / 12000) of the ordered pairs of an exhaustive small universe (599 values), (e) values containing date/datetime/time/timedelta "
         "and numpy int/float arrays (direct oracle only); configurations: view {text,tree} x verbose_level {1,2} x threshold_to_diff_deeper "
         "{0,0.33,0.9} x zip_ordered_iterables x cache_size {0,1,5000} x max_passes {0,1,10**7}: a random sample of 6 of the 216 per pair, the "
         "full grid on every 40th pair. Non-trivial = the two values are not Python-equal or the diff is non-empty; distinct by (t1, t2, cfg).")
@@ -254,8 +254,9 @@ def small_pairs(ctx, n):
     u += [frozenset(x) for x in u if isinstance(x, set)]
     ctx.count("small_universe_values", len(u))
     pairs = [(a, b) for a in u for b in u]
-    if not ctx.thorough:
-        pairs = ctx.rng.sample(pairs, n)
+    # all 599^2 ordered pairs x 6+ configurations do not fit the time budget: a seeded sample
+    # (20x larger in thorough)
+    pairs = ctx.rng.sample(pairs, n * 20 if ctx.thorough else n)
     return [(a, b, "small_universe", False) for a, b in pairs]
 
 
